@@ -121,6 +121,20 @@ def validate(path, workdir, name):
             "rejected": rejected, "states": states}
 
 
+def validate_irq_window(path, workdir, name, radius=3000):
+    """Long traces (a loop that kept running after an interrupt): validate the window around the
+    CTRL_INTERRUPT event only.  Returns validate()'s dict or None when there is no such event."""
+    lines = [l for l in open(path, errors="replace") if l.startswith('{"') and '"ev"' in l]
+    idx = next((i for i, l in enumerate(lines) if '"CTRL_INTERRUPT"' in l), None)
+    if idx is None:
+        return None
+    lo = max(0, idx - radius)
+    win = os.path.join(workdir, f"{name}.window.ndjson")
+    with open(win, "w") as f:
+        f.writelines(lines[lo: idx + radius])
+    return validate(win, workdir, name + "-win")
+
+
 # which named deviation explains a flag / stall (signature = flag tag + event kind)
 SIGNATURES = {
     "C15a-retract-while-scanned": "exit_race",
